@@ -487,4 +487,69 @@ theorem drop_rule_is_per_handler :
     GenEmit.dropRuleTopLevel = true ∧ GenEmit.dropRuleAfterUserCode = true ∧
     GenEmit.emitStrippedCompares = 1 ∧ GenEmit.logStrippedCompares = 0 := by decide
 
+/-! ## Levels declared at run time, with or without a colour -/
+
+/-- every level of the core has its ANSI prefix and its pre-coloured format, both for its CURRENT colour -/
+def LevelsOK (toks : List Tok) (c : LCore) : Prop :=
+  ∀ name col, find? name c.colors = some col →
+    ∃ a, ansify col = .ok a ∧ find? name c.cache.ansi = some a ∧
+      find? name c.cache.pre = some (colorize toks (some a))
+
+/-- after ANY history of `level(...)` calls made while a colourising static handler exists – new levels with a
+colour, with the colour `""`, with the colour omitted; existing levels re-coloured, re-declared with the same
+colour, or with the colour omitted – every level has the pre-coloured format of its current colour (so the
+lookup `_precolorized_formats[level_id]` in `emit` cannot fail and never serves a stale colour) -/
+theorem every_declared_level_is_precolorized (toks : List Tok) (ds : List Decl) (c : LCore)
+    (h : declareAll false toks {} ds = .ok c) : LevelsOK toks c := by
+  have step : ∀ (c0 c1 : LCore) (d : Decl), LevelsOK toks c0 → declare false toks c0 d = .ok c1 → LevelsOK toks c1 := by
+    intro c0 c1 d h0 h1
+    simp only [declare] at h1
+    split at h1
+    · cases h1
+    · rename_i a ha
+      injection h1 with h1; subst h1
+      intro name col hcol
+      by_cases hn : name = d.name
+      · subst hn
+        rw [find_assoc_same] at hcol
+        injection hcol with hcol; subst hcol
+        exact ⟨a, ha, by simp [find_assoc_same], by simp [find_assoc_same]⟩
+      · rw [find_assoc_other _ _ _ _ hn] at hcol
+        obtain ⟨a', h1, h2, h3⟩ := h0 name col hcol
+        exact ⟨a', h1, by simpa [find_assoc_other _ _ _ _ hn] using h2, by simpa [find_assoc_other _ _ _ _ hn] using h3⟩
+  have gen : ∀ (ds : List Decl) (c0 c : LCore), LevelsOK toks c0 → declareAll false toks c0 ds = .ok c → LevelsOK toks c := by
+    intro ds
+    induction ds with
+    | nil => intro c0 c h0 h; simp [declareAll] at h; subst h; exact h0
+    | cons d r ih =>
+      intro c0 c h0 h
+      simp only [declareAll] at h
+      split at h
+      · rename_i c1 h1
+        exact ih c1 c (step c0 c1 d h0 h1) h
+      · cases h
+  exact gen ds {} c (by intro name col h; simp [find?] at h) h
+
+/-- REFUTING WITNESS for the shape "call `update_format` only when the colour changed": a new level declared
+without a colour has colour `""` = the default old colour, so the guarded variant stores its ANSI prefix but no
+pre-coloured format – `emit` then fails with `KeyError(name)` for a colourising static handler -/
+theorem guarded_update_witness :
+    (declareAll true [.level, .text "x".toList] {} [⟨"NOCOLOR".toList, none⟩]).map
+        (fun c => (find? "NOCOLOR".toList c.cache.ansi, find? "NOCOLOR".toList c.cache.pre)) = .ok (some [], none) ∧
+    (declareAll false [.level, .text "x".toList] {} [⟨"NOCOLOR".toList, none⟩]).map
+        (fun c => (find? "NOCOLOR".toList c.cache.ansi, find? "NOCOLOR".toList c.cache.pre)) =
+      .ok (some [], some (.ok "x".toList)) := by decide +kernel
+
+/-- the code has the unguarded shape: inside the locked block of `Logger.level` the ANSI prefix
+(`Colorizer.ansify(color)`) is stored, then `update_format(name)` is called for EVERY handler, unconditionally,
+and nowhere else (regenerated from `Logger.level`) -/
+theorem level_updates_every_handler :
+    GenEmit.levelUpdatesEveryHandler = true ∧ GenEmit.levelAnsiStoredBeforeUpdate = true ∧
+    GenEmit.levelUpdateCalls = 1 ∧ GenEmit.levelAnsiSource = "Colorizer.ansify(color)".toList := by decide +kernel
+
+example : (declareAll false [.level, .text "x".toList] {}
+    [⟨"N".toList, none⟩, ⟨"N".toList, some "<red>".toList⟩, ⟨"N".toList, none⟩, ⟨"M".toList, some [] ⟩]).map
+    (fun c => (find? "N".toList c.cache.pre, find? "M".toList c.cache.pre)) =
+    .ok (some (.ok "\x1b[31mx".toList), some (.ok "x".toList)) := by decide +kernel
+
 end C06
